@@ -148,10 +148,12 @@ def _assigned_names(stmts):
             target(n.target)
             self.generic_visit(n)
 
-        def visit_Call(self, n):
-            f = n.func
-            if isinstance(f, ast.Attribute) and f.attr in MUTATORS:
-                b = f.value
+        def visit_Expr(self, n):
+            # a mutator call used as a statement (`x.append(..)`, `d[k].update(..)`); a call whose value is used
+            # (`np.sort(a)`, `s.pop()` in an expression is still caught through the assignment it feeds) is not a mutation of its base
+            c = n.value
+            if isinstance(c, ast.Call) and isinstance(c.func, ast.Attribute) and c.func.attr in MUTATORS:
+                b = c.func.value
                 while isinstance(b, (ast.Subscript, ast.Attribute)):
                     b = b.value
                 if isinstance(b, ast.Name):
